@@ -74,7 +74,7 @@ m("c08-credit-at-submission", "C08", SHMD, "        ds.status = DatasetStatus.pa
 m("c08-no-reserve-pagein", "C08", SHMD, "        if self.free_space < ds.size:\n            raise ValueError(\"insufficient space\")\n        self.free_space -= ds.size", "        if self.free_space < ds.size:\n            raise ValueError(\"insufficient space\")", "page-in does not reserve")
 m("c08-capacity-test-ge", "C08", SHMD, "        if size > self.free_space:\n            self.page_out_at_least(size - self.free_space)\n            return \"\", \"wait\"", "        if size > self.free_space + 1:\n            self.page_out_at_least(size - self.free_space)\n            return \"\", \"wait\"", "off by one: grants one byte beyond free space")
 m("c08-purge-credits-twice", "C08", SHMD, "            if not is_exit:  # we dont want to lock at exit, we may hang out unhealthily\n                with self.pageout_one:\n                    self.free_space += ds.size", "            if not is_exit:  # we dont want to lock at exit, we may hang out unhealthily\n                with self.pageout_one:\n                    self.free_space += ds.size * (2 if ds.delayed_purge else 1)", "delayed purge credits twice")
-m("c08-purge-during-pageout-again", "C08", SHMD, "            elif ds.status in (DatasetStatus.on_disk, DatasetStatus.paging_out):", "            elif ds.status == DatasetStatus.on_disk:", "re-introduces the purge of a dataset whose page-out is queued (stale job hits a re-allocated key)")
+m("c08-purge-during-pageout-again", "C08", SHMD, "                DatasetStatus.created,\n                DatasetStatus.paged_in,\n            ):\n                logger.warning(f\"calling purge in unsafe status: {key}, {ds.status}\")\n            elif ds.status in (DatasetStatus.on_disk, DatasetStatus.paging_out):", "                DatasetStatus.created,\n                DatasetStatus.paging_out,\n                DatasetStatus.paged_in,\n            ):\n                logger.warning(f\"calling purge in unsafe status: {key}, {ds.status}\")\n            elif ds.status == DatasetStatus.on_disk:", "re-introduces the purge of a dataset whose page-out is queued (stale job hits a re-allocated key)")
 # ---- C09 ------------------------------------------------------------------------------------------------
 m("c09-created-evictable", "C09", SHMD, "        return created_stale or (\n            self.status == DatasetStatus.in_memory and no_fresh_read\n        )", "        return created_stale or (\n            self.status in (DatasetStatus.in_memory, DatasetStatus.created) and no_fresh_read\n        )", "datasets still being written are evictable")
 m("c09-ignore-readers", "C09", SHMD, "        no_fresh_read = (\n            not (self.ongoing_reads)\n            or ref_time - max(self.ongoing_reads.values()) > STALE_READ\n        )", "        no_fresh_read = (\n            len(self.ongoing_reads) < 2\n            or ref_time - max(self.ongoing_reads.values()) > STALE_READ\n        )", "a single reader does not protect")
